@@ -117,7 +117,17 @@ def run(ctx):
                     continue
                 cnd = np.linalg.cond(cov)
                 q = abs(float((x - mean) @ np.linalg.solve(cov, x - mean)))
-                # round-off allowance of the kernel's marginal likelihood itself (same measure as C01)
+                # the identity holds for ANY x, so it cannot tell whether the row carries the x that was drawn; but the row's x
+                # is a draw of the recorded N(a, A): its squared Mahalanobis distance is chi^2 with L <= 8 degrees of
+                # freedom, P(q > 300) < 1e-55 - a row whose columns were exchanged on the way out is not such a draw
+                if cnd < 1e10:
+                    ctx.evaluations += 1
+                    ctx.maxi("max_mahalanobis2_of_row_x", q)
+                    if q > 300:
+                        ctx.violation("row-x-not-a-draw-of-its-posterior", "row %d: the linear parameters of the row are %.3g (squared "
+                                      "Mahalanobis) away from the N(a, A) they were drawn from" % (row, q),
+                                      dict(desc, row=row, x=x, mean=mean))
+                        break
                 zc = oracle.z_column(lin, P, e_, om, M0, "c")
                 tol_kernel = oracle.marginal(lin, zc, P, e_, s, want_post=False)["tol"]
                 tol = (1e-7 * (1 + abs(t1) + abs(t2) + abs(t3)) + 256 * oracle.EPS * cnd * (q + L) + tol_kepler
